@@ -211,7 +211,7 @@ PROPS = {
             "into a fresh per-group zero (R-AGGCLASS). NOT decided (outside static reach): that Inventory.reduce / "
             "add_position / convert.* form a homomorphism - beancount's arithmetic over run-time lots and prices."),
         'assumptions': TRUSTED_STRUCT,
-        'quick': [st.rule_onceperrow, st.rule_shared, aggregates.rule_aggclass, lib.rule_reduce],
+        'quick': [sxst.rule_onceperrow, st.rule_shared, aggregates.rule_aggclass, sxl.rule_reduce],
         'thorough': [],
     },
     'C17': {
@@ -270,7 +270,7 @@ PROPS = {
             "the call graph is over-approximated: every function of the non-front-end modules that is not import-only is "
             "treated as execution-reachable",
             "TatSu, beancount and dateutil internals perform no shared writes (summarised, not analysed)"],
-        'quick': [st.rule_shared, sxst.rule_tablecopy, st.rule_onceperrow, cu.rule_modconst, sxc.rule_freshcursor],
+        'quick': [st.rule_shared, sxst.rule_tablecopy, sxst.rule_onceperrow, cu.rule_modconst, sxc.rule_freshcursor],
         'thorough': [],
     },
     'C11': {
